@@ -321,6 +321,8 @@ theorem step_sigs_shape (hsrc : SourceOk) (w : World) (op : Op) : SigShape w.sig
   | vSbtLoad r fmt cache ss => simp only [step]; (repeat' split) <;> exact .same
   | vSqlite r ss => simp only [step]; (repeat' split) <;> exact .same
   | vLcaLoad r fmt ss => simp only [step]; (repeat' split) <;> exact .same
+  | vManifest nm v u ss => simp only [step]; (repeat' split) <;> exact .same
+  | vZipGroups r m k ss => simp only [step]; (repeat' split) <;> exact .same
   | vSelect r v kw =>
     simp only [step]; split
     · split <;> exact .same
@@ -456,6 +458,9 @@ theorem step_views_shape (hsrc : SourceOk) (w : World) (op : Op) : ViewShape w.v
     simp only [step]; (repeat' split) <;>
       first | exact .same | exact .alloc _ _ (by intro v c rc h; cases h)
   | vLcaLoad r fmt ss =>
+    simp only [step]; (repeat' split) <;>
+      first | exact .same | exact .alloc _ _ (by intro v c rc h; cases h)
+  | vZipGroups r m k ss =>
     simp only [step]; (repeat' split) <;>
       first | exact .same | exact .alloc _ _ (by intro v c rc h; cases h)
   | vSelect r v kw =>
